@@ -13,7 +13,7 @@ PROPERTY = "C10"
 LEVEL = "exploration"
 BUDGET_S = {"quick": 45, "thorough": 600}
 FLOOR = {"quick": 1500, "thorough": 15000}
-MUST_REACH = ("resequence_returns_judged", "resequence_raises_judged", "addrgroup_resequence_judged", "grouped_shapes")
+MUST_REACH = ("resequence_returns_judged", "resequence_raises_judged", "addrgroup_resequence_judged", "grouped_shapes", "mixed_shapes")
 RULE = ("ACL shapes: flat, grouped by remark prefix (blocks of 1..n items), ACLs with previous numbering (none, partial, "
         "arbitrary, duplicates), 1..14 lines, both platforms; AceGroup objects; address groups of 1..8 members; start in "
         "{0, 1, 10, random, 2^32-1-n*d-1..+1, 2^32-1, 2^32, -1, -5}, step in {-5, 0, 1, 7, 10, 2^31, random}. judged = "
@@ -149,6 +149,13 @@ def execute(ctx, case: dict) -> None:
         obj = Acl(case["text"], platform=platform, group_by=case.get("group_by", ""))
         if case.get("group_by") and any(type(i).__name__ == "AceGroup" for i in obj.items):
             ctx.count("grouped_shapes")
+        # mixed nesting: plain items between / after the groups (list methods, no regrouping)
+        from cisco_acl import Ace, Remark  # pylint: disable=import-outside-toplevel
+
+        for pos, text in case.get("extra", []):
+            new = Remark(text, platform=platform) if text.startswith("remark") else Ace(text, platform=platform)
+            obj.items.insert(min(pos, len(obj.items)), new)
+            ctx.count("mixed_shapes")
     elif case["cls"] == "AceGroup":
         obj = AceGroup(case["text"], platform=platform)
     else:
@@ -188,9 +195,14 @@ def gen_cases(ctx):
             acl = grammar.gen_acl(rng, platform, headings=heading, ace_kw=dict(allow_multi=False, ws=False, max_k=2),
                                   numbered=rng.choice([True, False, False]))
             count = len(acl["items"])
+            extra = []
+            if heading and rng.random() < 0.6:
+                for n in range(rng.randint(1, 3)):
+                    extra.append([rng.randint(0, 6), rng.choice([f"permit tcp any any eq {5000 + n}", f"remark extra {n}"])])
+            count += len(extra)
             calls = [_start_step(rng, count) for _ in range(rng.randint(1, 3))]
             yield {"cls": "Acl", "platform": platform, "text": acl["text"], "group_by": heading or "", "calls": calls,
-                   "n": count}
+                   "n": count, "extra": extra}
         elif roll < 0.82:
             acl = grammar.gen_acl(rng, platform, ace_kw=dict(allow_multi=False, ws=False, max_k=2))
             body = "\n".join(acl["text"].split("\n")[1:])
@@ -238,7 +250,7 @@ def run(ctx) -> None:
         start, step = case["calls"][0]
         outcome = "raise" if STATS.get("resequence_raises_judged", 0) > before.get("resequence_raises_judged", 0) else "ok"
         n_judged = sum(STATS.values()) - sum(before.values())
-        ctx.judged(sig=(case["cls"], case["platform"], bool(case.get("group_by")), min(case["n"], 6), _cls(start, case["n"]),
+        ctx.judged(sig=(case["cls"], case["platform"], bool(case.get("group_by")), len(case.get("extra", [])), min(case["n"], 6), _cls(start, case["n"]),
                         _cls(step), outcome, len(case["calls"])),
                    nontrivial=True, n=max(1, n_judged), sample=case if done % 200 == 1 else None)
     for key, val in STATS.items():
